@@ -321,3 +321,5 @@ def run(ctx):
     ctx.guarded("C04.repeatcount", lambda c: c09.r_repeatcount(c, "C04.repeatcount"))
     import c08
     ctx.guarded("C04.groupref", lambda c: c08.r_groupref(c, rid="C04.groupref"))
+    import common_val
+    ctx.guarded("C04.choicerollback", lambda c: common_val.choicerollback_rule(c, "C04"))
